@@ -270,12 +270,6 @@ def check(case):
                 out.append((f"C20.{what}.eq-raised:{r.label}", r.text))
             elif not r:
                 out.append((f"C20.{what}.not-reflexive", f"{o!s:.80}"))
-            for alien in (1, "x", None, 2.5, (), object()):
-                ra = _eq(o, alien)
-                if isinstance(ra, Raised):
-                    out.append((f"C20.{what}.eq-non-model-raised:{ra.label}", f"== {alien!r}: {ra.text}"))
-                elif ra:
-                    out.append((f"C20.{what}.equal-to-non-model", repr(alien)))
     # the permuted rebuild is equal, with equal hash, element by element and as a whole
     byname = {f.name: f for f in Fp}
     for f in F:
